@@ -35,6 +35,14 @@ if metas:
 else:
     out.append("(none recorded yet)")
 out.append("")
+out.append("")
+out.append("### A.7 Last run per property (generated from evidence/*.json)\n")
+out.append("| property | tier of the last run | obligations | discharged | inconclusive | known findings reported | checks | SAT queries | solver s | wall s |")
+out.append("|---|---|---|---|---|---|---|---|---|---|")
+for f in sorted(glob.glob('/verif/evidence/*.json')):
+    e = json.load(open(f)); c = e.get('coverage', {})
+    out.append("| %s | %s | %s | %s | %s | %s | %s | %s | %s | %s |" % (e.get('property_id'), e.get('tier'), c.get('obligations'), c.get('discharged'), c.get('inconclusive'), c.get('known_findings_reported'), c.get('checks_total'), c.get('queries_total'), c.get('solver_s_total'), e.get('wall_s')))
+out.append("")
 block = "\n".join(out)
 p = '/verif/DESIGN.md'
 s = open(p).read()
